@@ -452,6 +452,100 @@ func (e *effEngine) RunOptSlice(r *Report) {
 	}
 }
 
+
+// isOptionSliceParam: v derives, without a capping three-index slice in between, from a parameter of type
+// []Option / []ProverOption / ... (a slice of a named func type whose name ends in "Option").
+func isOptionSliceParam(v ssa.Value, depth int, seen map[ssa.Value]bool) (*ssa.Parameter, bool) {
+	if depth > 12 || v == nil || seen[v] {
+		return nil, false
+	}
+	seen[v] = true
+	switch x := v.(type) {
+	case *ssa.Parameter:
+		sl, ok := x.Type().Underlying().(*types.Slice)
+		if !ok {
+			return nil, false
+		}
+		n, ok := sl.Elem().(*types.Named)
+		if !ok || !strings.HasSuffix(n.Obj().Name(), "Option") {
+			return nil, false
+		}
+		if _, isFn := n.Underlying().(*types.Signature); !isFn {
+			return nil, false
+		}
+		return x, true
+	case *ssa.Slice:
+		if x.Max != nil {
+			return nil, false
+		}
+		return isOptionSliceParam(x.X, depth+1, seen)
+	case *ssa.Phi:
+		for _, e := range x.Edges {
+			if pm, ok := isOptionSliceParam(e, depth+1, seen); ok {
+				return pm, true
+			}
+		}
+	case *ssa.UnOp:
+		if x.Op == token.MUL {
+			return isOptionSliceParam(x.X, depth+1, seen)
+		}
+	case *ssa.Alloc:
+		// a spilled parameter: every store into the cell is looked at
+		if refs := x.Referrers(); refs != nil {
+			for _, rf := range *refs {
+				if st, ok := rf.(*ssa.Store); ok && st.Addr == x {
+					if pm, ok := isOptionSliceParam(st.Val, depth+1, seen); ok {
+						return pm, true
+					}
+				}
+			}
+		}
+	}
+	return nil, false
+}
+
+// RunOptParam: EFF-OPTSLICE on option slices received as (variadic) parameters: `f(w, shared...)` hands the
+// caller's backing array to the callee, so an append in place writes memory that concurrent calls share.
+func (e *effEngine) RunOptParam(r *Report) {
+	for _, fn := range e.p.Funcs {
+		pk := FuncPkg(fn)
+		if pk == nil || !inModule(pk.Path()) {
+			continue
+		}
+		rel := strings.TrimPrefix(pk.Path(), modPath+"/")
+		if !(strings.HasPrefix(rel, "constraint") || strings.HasPrefix(rel, "backend")) {
+			continue
+		}
+		ord := 0
+		for _, b := range fn.Blocks {
+			for _, ins := range b.Instrs {
+				c, ok := ins.(*ssa.Call)
+				if !ok {
+					continue
+				}
+				bi, ok := c.Call.Value.(*ssa.Builtin)
+				if !ok || bi.Name() != "append" || len(c.Call.Args) == 0 {
+					continue
+				}
+				sl, ok := c.Call.Args[0].Type().Underlying().(*types.Slice)
+				if !ok {
+					continue
+				}
+				if n, ok := sl.Elem().(*types.Named); !ok || !strings.HasSuffix(n.Obj().Name(), "Option") {
+					continue
+				}
+				ord++
+				key := fmt.Sprintf("append-to-option-slice#%d", ord)
+				if pm, bad := isOptionSliceParam(c.Call.Args[0], 0, map[ssa.Value]bool{}); bad {
+					r.Fail("EFF-OPTSLICE", pk.Path(), FuncName(fn), key, e.p.Pos(ins.Pos()), fmt.Sprintf("append in place into the option slice received as parameter %s: a caller passing `shared...` hands over its backing array, and concurrent calls sharing an option slice with spare capacity overwrite each other's entries", pm.Name()))
+				} else {
+					r.Pass("EFF-OPTSLICE", pk.Path(), FuncName(fn), key, e.p.Pos(ins.Pos()), "the base of the append is not a caller-provided option slice (own slice, or capped with a three-index slice)", true)
+				}
+			}
+		}
+	}
+}
+
 // ---------------------------------------------------------------------------
 // EFF-RESET: stateful blueprints are reset before the solver runs
 
